@@ -804,7 +804,9 @@ package wire
 //@   props C12 C11 C10 C03 C04
 //@   requires srv != nil && ReaderOK(reader)
 //@   ensures [ok] ReaderOK(reader)
-//@   ensures [consumed] err == nil ==> (reader.Buffer.#pos == old(reader.Buffer.#pos) + 8 + len(reader.Msg) && ret0 == sbe32(reader.Buffer, old(reader.Buffer.#pos) + 4) || true)
+//@   ensures [consumed] err == nil ==> reader.Buffer.#pos == old(reader.Buffer.#pos) + 8 + len(reader.Msg)
+//@   ensures [declared] err == nil ==> len(reader.Msg) == sbe32(reader.Buffer, old(reader.Buffer.#pos)) - 8
+//@   ensures [version-value] err == nil ==> ret0 == sbe32(reader.Buffer, old(reader.Buffer.#pos) + 4)
 //@   ensures [exceed-abort] {C10} (reader.Buffer.#pos >= old(reader.Buffer.#pos) + 4 && (sbe32(reader.Buffer, old(reader.Buffer.#pos)) - 4 > reader.MaxMessageSize || sbe32(reader.Buffer, old(reader.Buffer.#pos)) - 4 < 0)) ==> err != nil
 //@   ensures [alloc-bound] {C04 C10} #maxalloc <= max(old(#maxalloc), max(reader.MaxMessageSize, 4096))
 //@   ensures [pos-monotone] reader.Buffer.#pos >= old(reader.Buffer.#pos)
@@ -844,11 +846,12 @@ package wire
 //@     invariant [count] #nOut == old(#nOut) + $visited && #nZ == old(#nZ) && #nE == old(#nE) && (#nOut > old(#nOut) ==> #last == 'S')
 
 //@ func (*Server).sslUnsupported
-//@   props C11 C12 C02 C04
+//@   props C11 C12 C02 C03 C04
 //@   requires srv != nil && conn != nil && ReaderOK(reader)
 //@   ensures [N-same-conn] {C11} err == nil ==> (ret0 == conn && ret1 == reader && #rawN == old(#rawN) + 1 && #rawLast == 'N' && #rawConn == val(conn))
 //@   ensures [cancel-error] {C12} err == nil ==> ret2 != 80877102
 //@   ensures [same-objects] ret0 == conn && ret1 == reader
+//@   ensures [next-exact] {C03} err == nil ==> reader.Buffer.#pos == old(reader.Buffer.#pos) + 8 + len(reader.Msg)
 //@   ensures [at-most-one-raw] #rawN <= old(#rawN) + 1 && #rawN >= old(#rawN) && (#rawN > old(#rawN) ==> #rawLast == 'N')
 //@   ensures [ok] ReaderOK(reader)
 //@   ensures [window] Advanced(reader.Msg, old(reader.Msg)) || arr(reader.Msg) > old(#alloc)
@@ -856,11 +859,13 @@ package wire
 //@   modifies reader.Buffer.#pos, arrayof(reader.header), reader.Msg, memtail(reader.Msg), #maxalloc, #nalloc, #rawN, #rawLast, #rawConn
 
 //@ func (*Server).potentialConnUpgrade
-//@   props C11 C12 C02 C04
+//@   props C11 C12 C02 C03 C04
 //@   requires srv != nil && conn != nil && ReaderOK(reader)
 //@   ensures [passthrough] {C11} version != 80877103 ==> (err == nil && ret0 == conn && ret1 == reader && ret2 == version && #rawN == old(#rawN) && reader.Buffer.#pos == old(reader.Buffer.#pos))
 //@   ensures [S-then-tls] {C11} (version == 80877103 && err == nil && #rawLast == 'S' && #rawN > old(#rawN)) ==> (#rawN == old(#rawN) + 1 && #rawConn == val(conn) && ret0 != nil && fresh(val(ret0)) && ret0.#under == val(conn))
 //@   ensures [new-reader] {C11} (version == 80877103 && err == nil && #rawLast == 'S' && #rawN > old(#rawN)) ==> (ret1 != nil && fresh(ret1) && ret1.Buffer.#src == val(ret0) && ReaderOK(ret1) && reader.Buffer.#pos == old(reader.Buffer.#pos))
+//@   ensures [passthrough-msg] {C03} version != 80877103 ==> (reader.Msg == old(reader.Msg) && reader.Buffer.#pos == old(reader.Buffer.#pos) && ret1 == reader)
+//@   ensures [N-exact] {C03} (version == 80877103 && err == nil && ret1 == reader) ==> reader.Buffer.#pos == old(reader.Buffer.#pos) + 8 + len(reader.Msg)
 //@   ensures [N-keeps-conn] {C11} (version == 80877103 && err == nil && #rawLast == 'N' && #rawN > old(#rawN)) ==> (ret0 == conn && ret1 == reader)
 //@   ensures [one-raw-reply] {C11 C02} version == 80877103 ==> (#rawN <= old(#rawN) + 1 && #rawN >= old(#rawN) && (err == nil ==> #rawN == old(#rawN) + 1) && (#rawN > old(#rawN) ==> (#rawLast == 'S' || #rawLast == 'N')))
 //@   ensures [limit] {C10} ret1 == reader || (ret1 != nil && ret1.MaxMessageSize == (srv.BufferedMsgSize <= 0 ? 16777216 : srv.BufferedMsgSize))
@@ -873,7 +878,7 @@ package wire
 //@   modifies reader.Buffer.#pos, arrayof(reader.header), reader.Msg, memtail(reader.Msg), #maxalloc, #nalloc, #rawN, #rawLast, #rawConn
 
 //@ func (*Server).Handshake
-//@   props C11 C12 C10 C04
+//@   props C11 C12 C10 C03 C04
 //@   requires srv != nil && conn != nil
 //@   ensures [reader-ok] err == nil ==> (ret0 != nil && ReaderOK(reader))
 //@   ensures [limit] {C10} reader != nil ==> reader.MaxMessageSize == (srv.BufferedMsgSize <= 0 ? 16777216 : srv.BufferedMsgSize)
@@ -881,6 +886,7 @@ package wire
 //@   ensures [cancel-before-ssl] {C12} (err == nil && version == 80877102 && #rawN == old(#rawN)) ==> ret0 == conn
 //@   ensures [no-cancel-after-N] {C12} (err == nil && #rawN > old(#rawN) && #rawLast == 'N') ==> version != 80877102
 //@   ensures [at-most-one-raw] #rawN <= old(#rawN) + 1
+//@   ensures [exact-consume] {C03} (err == nil && ret0 == conn) ==> reader.Buffer.#pos == (#rawN > old(#rawN) ? sbe32(reader.Buffer, 0) : 0) + 8 + len(reader.Msg)
 //@   ensures [fresh-reader] {C15 C11} reader != nil ==> (fresh(reader) && fresh(reader.Buffer) && (reader.Msg == nil || arr(reader.Msg) > old(#alloc)))
 //@   ensures [out-silent] OutSame()
 //@   modifies #maxalloc, #nalloc, #rawN, #rawLast, #rawConn
